@@ -28,24 +28,24 @@ func uniqStrings(xs []string, max int) []string {
 func report(id string, spec *CheckSpec, o runOpts, results []*unitResult, known map[string]knownEntry, wall time.Duration) int {
 	var (
 		paths, branchPts, forks, asserts, assertQ, queries, sat, unsat, unknown, cacheHits, crossChecked int
-		steps                                                                                        int64
-		solverTime                                                                                   time.Duration
-		inconclusive                                                                                 []string
-		funcs                                                                                        = map[string]bool{}
-		models                                                                                       = map[string]int{}
-		summaries                                                                                    = map[string]int{}
-		fallback                                                                                     = map[string]int{}
-		samples                                                                                      []any
-		nativeOK                                                                                     int
-		confirmed, unconf                                                                            []Violation
-		coversTotal, coversReached                                                                   int
-		assertSitesTotal, assertSitesReached                                                         int
-		missing                                                                                      []string
-		initNotes                                                                                    []string
-		nCases                                                                                       int
-		unitInfo                                                                                     []map[string]any
-		maxQuery                                                                                     time.Duration
-		assertsConc                                                                                  int
+		steps                                                                                            int64
+		solverTime                                                                                       time.Duration
+		inconclusive                                                                                     []string
+		funcs                                                                                            = map[string]bool{}
+		models                                                                                           = map[string]int{}
+		summaries                                                                                        = map[string]int{}
+		fallback                                                                                         = map[string]int{}
+		samples                                                                                          []any
+		nativeOK                                                                                         int
+		confirmed, unconf                                                                                []Violation
+		coversTotal, coversReached                                                                       int
+		assertSitesTotal, assertSitesReached                                                             int
+		missing                                                                                          []string
+		initNotes                                                                                        []string
+		nCases                                                                                           int
+		unitInfo                                                                                         []map[string]any
+		maxQuery                                                                                         time.Duration
+		assertsConc                                                                                      int
 	)
 	for _, r := range results {
 		if r.err != nil {
@@ -196,34 +196,34 @@ func report(id string, spec *CheckSpec, o runOpts, results []*unitResult, known 
 		"violations":  nviol,
 		"assumptions": spec.Assumptions,
 		"coverage": map[string]any{
-			"states":                        maxInt(paths, 0),
-			"transitions":                   branchPts,
-			"traces_validated_against_impl": nativeOK,
-			"samples":                       samples,
-			"technique":                     "symbolic execution of go/ssa built from /repo's working tree; bit-vector SMT queries (z3 pipe, fall-backs cvc5 --solve-bv-as-int=sum, z3 5.1); every model replayed natively",
-			"units":                         unitInfo,
-			"cases":                         nCases,
-			"paths":                         paths,
-			"branch_points_decided":         branchPts,
-			"forks":                         forks,
-			"instructions_interpreted":      steps,
-			"functions_encoded":             fnames,
-			"functions_encoded_count":       len(fnames),
-			"merged_summaries":              summaries,
-			"models_and_stubs_hit":          models,
-			"bounds":                        spec.Bounds,
-			"queries":                       map[string]any{"total": queries, "sat": sat, "unsat": unsat, "unknown": unknown, "model_cache_hits": cacheHits, "fallback_solver_answers": fallback, "cross_checked_unsat": crossChecked, "max_query_s": round2(maxQuery.Seconds())},
-			"solver_time_s":                 round2(solverTime.Seconds()),
-			"assertion_queries":             assertQ,
-			"assertions_discharged_unsat":   asserts,
+			"states":                                 maxInt(paths, 0),
+			"transitions":                            branchPts,
+			"traces_validated_against_impl":          nativeOK,
+			"samples":                                samples,
+			"technique":                              "symbolic execution of go/ssa built from /repo's working tree; bit-vector SMT queries (z3 pipe, fall-backs cvc5 --solve-bv-as-int=sum, z3 5.1); every model replayed natively",
+			"units":                                  unitInfo,
+			"cases":                                  nCases,
+			"paths":                                  paths,
+			"branch_points_decided":                  branchPts,
+			"forks":                                  forks,
+			"instructions_interpreted":               steps,
+			"functions_encoded":                      fnames,
+			"functions_encoded_count":                len(fnames),
+			"merged_summaries":                       summaries,
+			"models_and_stubs_hit":                   models,
+			"bounds":                                 spec.Bounds,
+			"queries":                                map[string]any{"total": queries, "sat": sat, "unsat": unsat, "unknown": unknown, "model_cache_hits": cacheHits, "fallback_solver_answers": fallback, "cross_checked_unsat": crossChecked, "max_query_s": round2(maxQuery.Seconds())},
+			"solver_time_s":                          round2(solverTime.Seconds()),
+			"assertion_queries":                      assertQ,
+			"assertions_discharged_unsat":            asserts,
 			"assertions_true_on_fully_decided_paths": assertsConc,
-			"cover_points":                  map[string]int{"reached": coversReached, "total": coversTotal},
-			"assert_sites":                  map[string]int{"reached": assertSitesReached, "total": assertSitesTotal},
-			"inconclusive":                  inc,
-			"known_findings_reported":       knownList,
-			"init_notes":                    uniqStrings(initNotes, 10),
-			"out_of_claim":                  spec.OutOfClaim,
-			"exit_status":                   exit,
+			"cover_points":                           map[string]int{"reached": coversReached, "total": coversTotal},
+			"assert_sites":                           map[string]int{"reached": assertSitesReached, "total": assertSitesTotal},
+			"inconclusive":                           inc,
+			"known_findings_reported":                knownList,
+			"init_notes":                             uniqStrings(initNotes, 10),
+			"out_of_claim":                           spec.OutOfClaim,
+			"exit_status":                            exit,
 		},
 	}
 	os.MkdirAll(filepath.Join(verifDir, "evidence"), 0o755)
